@@ -1,24 +1,25 @@
 #!/bin/sh
-# MANIFEST.setup_cmd: build everything the checks need from files on disk only (offline).
+# MANIFEST.setup_cmd: build everything the claimed checks need from files on disk only (offline).
 set -e
 cd "$(dirname "$0")"
 export CARGO_NET_OFFLINE=true
 mkdir -p .cache/tmp coq/Gen
 python3 - <<'PY'
-import sys, os
+import sys, os, json, importlib
 sys.path.insert(0, os.getcwd())
-import vlib, importlib, glob
-# translator outputs first (Gen/*.v), then a full Coq build, then every harness binary
-for f in sorted(glob.glob("props/c[0-9]*.py")):
-    m = importlib.import_module("props." + os.path.basename(f)[:-3])
+import vlib
+claimed = {k: v for k, v in json.load(open("tools/checks.json")).items() if not k.startswith("_")}
+# translator outputs first (Gen/*.v)
+for pid in sorted(claimed):
+    m = importlib.import_module("props." + pid.lower())
     if hasattr(m, "translate"):
-        r = m.translate(None)
-        print("translate", f, r)
-ok, log = vlib.coq_make([f[:-2] + ".vo" for f in vlib.coq_files()], timeout=3000)
+        print("translate", pid, m.translate(None))
+targets = sorted({t for v in claimed.values() for t in v.get("coq_targets", [])})
+ok, log = vlib.coq_make(targets, timeout=3000)
 print(log[-2000:])
 if not ok:
     sys.exit("coq build failed")
-bins = sorted(os.path.basename(f)[:-3] for f in glob.glob("harness/src/bin/*.rs"))
+bins = sorted({b for v in claimed.values() for b in v.get("bins", [])})
 ok, log, _ = vlib.cargo_build(bins, timeout=3000)
 print(log[-2000:])
 if not ok:
